@@ -150,7 +150,7 @@ func RunC17Repr(ctx *core.Ctx) {
 	ncases := ctx.Scale(6, 60)
 	var wg sync.WaitGroup
 	sem := make(chan struct{}, 16)
-	for _, e := range gen.Catalog {
+	for _, e := range gen.WithGeo() {
 		wg.Add(1)
 		sem <- struct{}{}
 		go func(e *gen.Entry) {
